@@ -39,6 +39,23 @@ func (l *filterRuleList) matches(name string) bool {
 	return false
 }
 
+// NewFilterRuleList builds a rule list from the rules specified on the command
+// line (--exclude, --include, --filter), for use when the client is the sender.
+func NewFilterRuleList(rules []string) (*filterRuleList, error) {
+	var l filterRuleList
+	for _, line := range rules {
+		fr, err := parseFilter(line)
+		if err != nil {
+			return nil, err
+		}
+		l.addRule(fr)
+		if fr.flag&filtruleWild != 0 {
+			return nil, fmt.Errorf("wildcard filter rules not yet implemented: %q", line)
+		}
+	}
+	return &l, nil
+}
+
 // exclude.c:recv_filter_list
 func RecvFilterList(c *rsyncwire.Conn) (*filterRuleList, error) {
 	var l filterRuleList
